@@ -415,7 +415,9 @@ func mutationsFor(b *baseBlock) []mutation {
 				pb.Evidence.Evidence = e
 			})
 		}
-		D := func(pb *kproto.Block) *kproto.DuplicateVoteEvidence { return pb.Evidence.Evidence[i].GetDuplicateVoteEvidence() }
+		D := func(pb *kproto.Block) *kproto.DuplicateVoteEvidence {
+			return pb.Evidence.Evidence[i].GetDuplicateVoteEvidence()
+		}
 		sd := seed.Evidence.Evidence[i].GetDuplicateVoteEvidence()
 		if sd == nil || sd.VoteA == nil || sd.VoteB == nil {
 			continue
@@ -522,6 +524,19 @@ func evalMutation(b *baseBlock, m *mutation) (res mutResult) {
 		res.outcome = "decodes-to-the-same-block"
 		return
 	}
+	// A nil LastCommit and the empty commit of the initial height say the same thing (no field of the
+	// commit differs); weakest reading: not a content change. It must still not panic.
+	equivalent := false
+	if blk.LastCommit() == nil && b.decoded.LastCommit() != nil && len(b.decoded.LastCommit().Signatures) == 0 {
+		safely(func() {
+			if blk2, err := decodeBlock(bz); err == nil {
+				blk2.SetLastCommit(types.NewCommit(b.decoded.LastCommit().Height, b.decoded.LastCommit().Round, b.decoded.LastCommit().BlockID, nil))
+				if e2, err := encodeBlock(blk2); err == nil && bytes.Equal(e2, b.bz) {
+					equivalent = true
+				}
+			}
+		})
+	}
 	// same id, different content: it must not be acceptable
 	e, pv := validate(newExec(), b.state, blk)
 	switch {
@@ -529,6 +544,9 @@ func evalMutation(b *baseBlock, m *mutation) (res mutResult) {
 		res.outcome = "validate-panics"
 		res.obs = append(res.obs, obs{mutSig(b, m, pathFresh, "validate-panics"),
 			fmt.Sprintf("%s, mutation %s: the block decodes, keeps hash %s, and ValidateBlock panics: %s", b.name, m.id, h.Hex(), pv)})
+	case equivalent:
+		res.outcome = "decodes-to-an-equivalent-block"
+		return
 	case e == nil:
 		res.outcome = "VIOLATION-fresh"
 		res.obs = append(res.obs, obs{mutSig(b, m, pathFresh, "same-hash-still-valid"),
@@ -538,9 +556,16 @@ func evalMutation(b *baseBlock, m *mutation) (res mutResult) {
 	default:
 		res.outcome = "rejected-by-validate"
 	}
+	if equivalent {
+		return
+	}
 	// the same executor object after it validated the original (a validator that saw the valid proposal first)
 	ex := newExec()
-	if e0, pv0 := validate(ex, b.state, b.decoded); e0 != nil || pv0 != "" {
+	orig, err := decodeBlock(b.bz) // a private copy of the original: b.decoded is shared between goroutines
+	if err != nil {
+		return
+	}
+	if e0, pv0 := validate(ex, b.state, orig); e0 != nil || pv0 != "" {
 		return
 	}
 	e2, pv2 := validate(ex, b.state, blk)
@@ -597,6 +622,7 @@ func runMutations() {
 	}
 	outcomes := map[string]int64{}
 	unvalidated := map[string]bool{}
+	sameAfterDecode := map[string]int64{} // wire-level changes that the decoder normalises away (no content change)
 	for i, x := range res {
 		if x.outcome == "" {
 			continue
@@ -615,6 +641,9 @@ func runMutations() {
 			r.Distinct("block_mutation_classes_effective", heightClass(j.b)+"|"+j.m.class)
 		}
 		r.Distinct("block_mutation_classes", j.m.class)
+		if x.outcome == "decodes-to-the-same-block" || x.outcome == "decodes-to-an-equivalent-block" {
+			sameAfterDecode[j.m.class]++
+		}
 		if x.validHdr {
 			unvalidated[j.m.class] = true
 		}
@@ -626,6 +655,7 @@ func runMutations() {
 		}
 	}
 	r.Set("block_mutation_outcomes", outcomes)
+	r.Set("wire_changes_normalised_away_by_the_decoder", sameAfterDecode)
 	var uv []string
 	for k := range unvalidated {
 		uv = append(uv, k)
